@@ -130,14 +130,15 @@ func (t *TrackRemote) Read(b []byte) (n int, attributes interceptor.Attributes, 
 }
 
 func (t *TrackRemote) read(b []byte) (n int, attributes interceptor.Attributes, err error) {
-	t.mu.RLock()
+	// the peeked-packet queue is popped here, so the write lock is needed
+	t.mu.Lock()
 	receiver := t.receiver
 	var peekedPkt *peekedPacket
 	if len(t.peekedPackets) != 0 {
 		peekedPkt = t.peekedPackets[0]
 		t.peekedPackets = t.peekedPackets[1:]
 	}
-	t.mu.RUnlock()
+	t.mu.Unlock()
 
 	if receiver.haveClosed() {
 		return 0, nil, io.EOF
